@@ -4,7 +4,15 @@ Sasl.tla is the per-connection authentication automaton (client half = kafka-go'
 connGroup.connect, environment half = a broker that may reject, fail, tamper or close at any step); TLC checks the
 C18 invariants on it exhaustively.  The same invariants are then evaluated by TLC (SaslTrace.tla, MSpec) on journals
 recorded from REAL dials against the fake cluster for every tuple of the scenario space, and every journal is
-validated as a behaviour of the automaton (TSpec)."""
+validated as a behaviour of the automaton (TSpec).
+
+Two further dimensions of the scenario space do not change what a journal must look like, only how hard it is for the
+client to produce it: the DELIVERY of the broker's bytes (whole / length prefix first / two halves / k bytes per read,
+for frames and raw tokens alike) and OVERLAPPING authentications (two or three connections authenticated at once through
+ONE Dialer / ONE Transport, i.e. one sasl.Mechanism value, with the broker holding the answer to step r of connection k
+until connection k+1 has started / finished its own exchange, for every r).  Every connection is judged on its own by the
+same invariants; Sasl.tla is model-checked for two connections sharing a Mechanism, and a mechanism that keeps the
+conversation in the shared value (Bug = "sharedConvo") is one of the vacuity guards."""
 import concurrent.futures, json, os, random, re, shutil, threading
 from vlib import Inconclusive, read_ndjson, write_ndjson, split_traces
 
@@ -24,6 +32,13 @@ ASSUMPTIONS = {"C18": [
     "client, never 'no authentication'; the fake broker serves SaslHandshake / SaslAuthenticate whatever it advertised",
     "an injected 'error' answers the step with the code of the tuple (handshake: 33, 34, -1; authenticate round: 58, 34, -1) and closes "
     "the connection, for right and wrong credentials alike; after a v0 handshake no frame carries a code (one representative, 58)",
+    "delivery: a piece is what one Read on the client's end of the connection returns (the length prefix alone, half a message, "
+    "k bytes), as on a TCP stream segmented on its way; no byte is delayed, reordered or lost, so the expected journal of a "
+    "connection does not depend on the delivery kind",
+    "overlapping authentications: the connections of one Dialer / one Transport share the sasl.Mechanism VALUE and nothing else; "
+    "the broker holds the answer to one step of a connection until the next connection has sent its first authentication bytes "
+    "(its Mechanism.Start has run) or is through; each connection is judged on its own by the same invariants (its result is "
+    "attributed by the broker address its call dialled)",
 ]}
 
 INVS = ["C18_NothingBeforeAuth", "C18_FailureClosesAndFails", "C18_SuccessIffRightCreds", "C18_RawVsFramed"]
@@ -34,7 +49,10 @@ GUARDS = [("useBeforeAuth", "C18_NothingBeforeAuth"), ("skipAuthV0", "C18_Succes
           # "authenticate only if the ApiVersions response lists SaslHandshake"
           ("skipAuthAbsent", "C18_SuccessIffRightCreds"), ("skipAuthAbsent", "C18_NothingBeforeAuth"),
           # "error code > 0" instead of "error code # 0": UNKNOWN_SERVER_ERROR (-1) passes for success
-          ("negCodeOK", "C18_FailureClosesAndFails"), ("negCodeOK", "C18_NothingBeforeAuth")]
+          ("negCodeOK", "C18_FailureClosesAndFails"), ("negCodeOK", "C18_NothingBeforeAuth"),
+          # the Mechanism value keeps ONE conversation for all the connections authenticated with it (needs two connections)
+          ("sharedConvo", "C18_SuccessIffRightCreds"), ("sharedConvo", "C18_NothingBeforeAuth")]
+TWO_CONN_BUGS = {"sharedConvo"}
 
 MECHS = ["PLAIN", "SCRAM-SHA-256", "SCRAM-SHA-512"]
 HSADVS = ["absent", "v0", "v0v1", "v1"]      # ApiVersions entry of SaslHandshake: none, 0..0, 0..1, 1..1
@@ -43,6 +61,13 @@ HS_CODES = [33, 34, -1]                      # codes of a rejected handshake (-1
 AUTH_CODES = [58, 34, -1]                    # codes of a failed authenticate round
 CREDS = ["right", "wrongPassword", "unknownUser"]
 ENTRIES = ["dial", "leader", "transport"]
+# delivery of the broker's bytes to the client: as they come / the 4-byte length prefix alone, then the rest / prefix + first
+# half, then the second half / k bytes per read (k from PIECES)
+DELIVS = ["whole", "prefix", "halves", "pieces"]
+PIECES = [1, 2, 3, 5, 7, 13]
+# overlapping authentications through one Dialer / one Transport (one Mechanism value)
+OVL_ENTRIES = ["dialovl", "transportovl"]
+OVL_MODES = ["start", "lock", "done"]
 CHUNK = 25000      # journal lines per TLC run
 
 
@@ -103,17 +128,97 @@ def tuples():
     return out
 
 
-def scenario(tup, fconn, cls, seed, k, conc=0, aa=0):
-    """aa selects the advertisement of SaslAuthenticate (rotated by the callers so that every tuple meets all three)."""
+def scenario(tup, fconn, cls, seed, k, conc=0, aa=0, dv=0):
+    """aa selects the advertisement of SaslAuthenticate (rotated by the callers so that every tuple meets all three),
+    dv the delivery kind."""
     mech, hsadv, creds, fk, fs, fcode, entry = tup
     if cls == "emptypw" and creds != "wrongPassword":
         cls = "ascii"
     rng = random.Random("%d/%s/%s/%d" % (seed, "-".join(map(str, tup)), cls, k))
     user, pw, cuser, cpw = credentials(cls, creds, rng)
     authadv = AUTHADVS[aa % len(AUTHADVS)]
-    sid = "%s-hs%s-au%s-%s-%s-s%d-c%s-%s-f%d-%s-k%d" % (mech, hsadv, authadv, creds, fk, fs, str(fcode).replace("-", "n"), entry, fconn, cls, k)
+    deliv = DELIVS[dv % len(DELIVS)]
+    delivk = rng.choice(PIECES) if deliv == "pieces" else 0
+    sid = "%s-hs%s-au%s-%s-%s-s%d-c%s-%s-f%d-%s-k%d-d%s%s" % (mech, hsadv, authadv, creds, fk, fs, str(fcode).replace("-", "n"), entry, fconn, cls, k,
+                                                            deliv, delivk or "")
     return {"id": sid, "mech": mech, "hsadv": hsadv, "authadv": authadv, "creds": creds, "fkind": fk, "fstep": fs, "fcode": fcode,
-            "fconn": fconn, "entry": entry, "conc": conc, "class": cls, "user": user, "pass": pw, "cuser": cuser, "cpass": cpw}
+            "fconn": fconn, "entry": entry, "conc": conc, "class": cls, "user": user, "pass": pw, "cuser": cuser, "cpass": cpw,
+            "deliv": deliv, "delivk": delivk}
+
+
+def last_step(mech, creds):
+    """the last step of the exchange a connection reaches without injected faults (0 handshake, i authenticate round i)"""
+    if creds == "right" or mech == "PLAIN":
+        return rounds(mech)
+    return 1 if creds == "unknownUser" else 2
+
+
+def ovl_scenario(mech, hsadv, creds, entry, hold, mode, cls, seed, k, aa=0, dv=0, fault=("none", 0, 0), fconn=0, via=0):
+    """len(hold)+1 connections authenticated at once through one Dialer / Transport; the answer to step hold[j] of connection
+    j+1 is held until connection j+2 has started (start, lock) or finished (done) its own exchange.
+    Transport: the connections are those of concurrent requests to different brokers of one pool (via "requests"; the pool's
+    control connection is authenticated before, so this needs right credentials) or the control connections of several
+    pools of the one Transport (via "pools")."""
+    s = scenario((mech, hsadv, creds) + tuple(fault) + (entry,), fconn, cls, seed, k, aa=aa, dv=dv)
+    s.update({"ovn": len(hold) + 1, "ovhold": list(hold), "ovmode": mode, "ovvia": ""})
+    if entry == "transportovl":
+        s["ovvia"] = "pools" if (creds != "right" or via % 2) else "requests"
+    s["id"] += "-ov%d%s%s-h%s" % (len(hold) + 1, mode, s["ovvia"][:1], "".join(map(str, hold)))
+    return s
+
+
+def ovl_scenarios(tier, seed):
+    out = []
+    raw, framed = ["absent", "v0"], ["v0v1", "v1"]
+    if tier == "quick":
+        # every interleaving point "connection 2 starts after step r of connection 1" (r = 0 .. last step), each mechanism, Dialer
+        # and Transport, raw and framed authentication bytes; right credentials under all three modes, wrong ones under one
+        for mech in MECHS:
+            for entry in OVL_ENTRIES:
+                for creds in CREDS:
+                    for r in range(0, last_step(mech, creds) + 1):
+                        for mode in (OVL_MODES if creds == "right" else [OVL_MODES[(len(out) // 2 + seed) % 3]]):
+                            c = len(out) // 2 + seed
+                            for h, hsadv in enumerate((raw[c % 2], framed[(c // 2) % 2])):
+                                cls = CLASS_ORDER[(c + h) % 4]
+                                out.append(ovl_scenario(mech, hsadv, creds, entry, [r], mode, cls, seed, 0, aa=c + h, dv=c // 3 + h, via=c // 3 + h))
+        return out
+    for mech in MECHS:
+        for entry in OVL_ENTRIES:
+            # the fakenet connection ids of the overlapping connections: the Transport's control connection comes first
+            base = 1 if entry == "transportovl" else 0
+            for hsadv in HSADVS:
+                for creds in CREDS:
+                    ls = last_step(mech, creds)
+                    for r in range(0, ls + 1):
+                        for mode in OVL_MODES:
+                            for k in range(2):
+                                q = len(out) + seed
+                                out.append(ovl_scenario(mech, hsadv, creds, entry, [r], mode, CLASS_ORDER[q % 4], seed, k, aa=q, dv=q // 2, via=k))
+                    # three connections: every pair of holding points
+                    for r1 in range(0, ls + 1):
+                        for r2 in range(0, ls + 1):
+                            q = len(out) + seed
+                            out.append(ovl_scenario(mech, hsadv, creds, entry, [r1, r2], OVL_MODES[q % 3], CLASS_ORDER[q % 4], seed, 0, aa=q, dv=q // 2, via=q // 3))
+                # the broker fails ONE of two connections (closes it / answers an error) while the other one is in its exchange
+                for (fk, fs, fcode) in faults(mech, hsadv):
+                    if fk not in ("close", "error", "badproof"):
+                        continue
+                    for fc in (base + 1, base + 2):
+                        q = len(out) + seed
+                        r = min(fs, rounds(mech)) if fc == base + 1 else q % (rounds(mech) + 1)
+                        out.append(ovl_scenario(mech, hsadv, "right", entry, [r], OVL_MODES[q % 3], CLASS_ORDER[q % 4], seed, 0, aa=q, dv=q // 2,
+                                                fault=(fk, fs, fcode), fconn=fc))
+    return out
+
+
+def deliv_triples(scs):
+    """(mechanism, handshake advertisement, entry) -> delivery kinds met by a fault-free scenario with right credentials"""
+    m = {}
+    for s in scs:
+        if s["creds"] == "right" and s["fkind"] == "none" and s["entry"] in ENTRIES:
+            m.setdefault((s["mech"], s["hsadv"], s["entry"]), set()).add(s["deliv"])
+    return m
 
 
 def fconns(tup):
@@ -131,26 +236,35 @@ def scenarios(tier, seed):
         # every tuple once; the connection that gets the fault and the credential class rotate with the seed.
         # Tuples without an injected fault (where the outcome depends on the credentials only) run with every class.
         # The SaslAuthenticate advertisement rotates too; the fault-free tuples meet all three of them.
+        # The delivery kind rotates as well; the fault-free tuples (at least four scenarios each) meet all four kinds.
         for i, t in enumerate(tl):
             fc = fconns(t)
             first = CLASS_ORDER[(i * 7 + seed) % len(CLASS_ORDER)]
-            out.append(scenario(t, fc[(i + seed) % len(fc)], first, seed, 0, aa=i + seed))
+            out.append(scenario(t, fc[(i + seed) % len(fc)], first, seed, 0, aa=i + seed, dv=i + seed))
             if t[3] == "none":
                 j = 0
                 for cls in CLASS_ORDER:
                     if cls != first and not (cls == "emptypw" and t[2] != "wrongPassword"):
                         j += 1
-                        out.append(scenario(t, 0, cls, seed, 0, aa=i + seed + j))
+                        out.append(scenario(t, 0, cls, seed, 0, aa=i + seed + j, dv=i + seed + j))
         ids = set()
         out = [s for s in out if not (s["id"] in ids or ids.add(s["id"]))]
-        return out
+        # every (mechanism, advertisement, path) meets every delivery kind with right credentials and no injected fault
+        have = deliv_triples(out)
+        for mech in MECHS:
+            for hsadv in HSADVS:
+                for entry in ENTRIES:
+                    for dv, kind in enumerate(DELIVS):
+                        if kind not in have.get((mech, hsadv, entry), ()):
+                            out.append(scenario((mech, hsadv, "right", "none", 0, 0, entry), 0, "ascii", seed, 1, aa=seed + dv, dv=dv))
+        return out + ovl_scenarios(tier, seed)
     for i, t in enumerate(tl):
         for fc in fconns(t):
             for cls in CLASS_ORDER:
                 if cls == "emptypw" and t[2] != "wrongPassword":
                     continue
                 for k in range(6):
-                    out.append(scenario(t, fc, cls, seed, k, aa=i + seed + k))
+                    out.append(scenario(t, fc, cls, seed, k, aa=i + seed + k, dv=i + seed + k + CLASS_ORDER.index(cls)))
     # concurrent requests through one Transport pool: every request may dial and authenticate its own connection
     for mech in MECHS:
         for hsadv in HSADVS:
@@ -158,8 +272,8 @@ def scenarios(tier, seed):
                 for (fk, fs, fcode) in faults(mech, hsadv):
                     for fc in ([0] if fk in ("none", "unsupported") else [2, 3, 4]):
                         t = (mech, hsadv, creds, fk, fs, fcode, "transportconc")
-                        out.append(scenario(t, fc, CLASS_ORDER[(len(out) + seed) % 4], seed, 0, conc=6, aa=len(out) + seed))
-    return out
+                        out.append(scenario(t, fc, CLASS_ORDER[(len(out) + seed) % 4], seed, 0, conc=6, aa=len(out) + seed, dv=len(out) // 3 + seed))
+    return out + ovl_scenarios(tier, seed)
 
 
 def tuple_of(s):
@@ -183,23 +297,42 @@ def model_check(ctx):
         private(ENGINE + "-mc")
         return ctx.tlc(ENGINE + "-mc", "Sasl", "MC_quick.cfg", workers=6, timeout=600)
 
+    def overlap(_):
+        # two connections authenticated at once with one Mechanism value (same mechanism, credentials, advertisement), every
+        # interleaving of their exchanges, the broker closing either of them at any step
+        # (quick: the invariants; thorough: also the liveness property, which doubles the cost of the run)
+        private(ENGINE + "-mc2")
+        return ctx.tlc(ENGINE + "-mc2", "Sasl", "MC_overlap.cfg" if ctx.tier == "quick" else "MC_overlap_live.cfg", workers=4, timeout=600)
+
     def guard(k):
         bug, inv = GUARDS[k]
         alias, cfg = "%s-g%d" % (ENGINE, k), "MC_bug_%s_%s.cfg" % (bug, inv)
+        two = bug in TWO_CONN_BUGS
         with open(os.path.join(private(alias), cfg), "w") as f:
-            f.write('SPECIFICATION Spec\nCONSTANTS\n  Conns = {1}\n  Bug = "%s"\n  MaxUse = 2\nINVARIANTS %s\nCHECK_DEADLOCK FALSE\n' % (bug, inv))
+            f.write('SPECIFICATION Spec\nCONSTANTS\n  Conns = %s\n  Bug = "%s"\n  MaxUse = %d\n  OneMechanism = %s\n  OvFaults = {"none"}\n'
+                    'INVARIANTS %s\nCHECK_DEADLOCK FALSE\n' % ("{1, 2}" if two else "{1}", bug, 1 if two else 2, "TRUE" if two else "FALSE", inv))
         return ctx.tlc(alias, "Sasl", cfg, workers=2, timeout=300)
 
-    with concurrent.futures.ThreadPoolExecutor(max_workers=6) as ex:
+    with concurrent.futures.ThreadPoolExecutor(max_workers=7) as ex:
         fmain = ex.submit(main, None)
-        fguards = [ex.submit(guard, k) for k in range(len(GUARDS))]
+        fovl = ex.submit(overlap, None)
+        # the two-connection guards take longest: first in the queue
+        order = sorted(range(len(GUARDS)), key=lambda k: GUARDS[k][0] not in TWO_CONN_BUGS)
+        fg = {k: ex.submit(guard, k) for k in order}
         r = fmain.result()
-        gres = [f.result() for f in fguards]
+        r2 = fovl.result()
+        gres = [fg[k].result() for k in range(len(GUARDS))]
     if r["violated"] or r["error"] or r["timeout"]:
         raise Inconclusive("model checking of Sasl.tla did not pass: " + r["out"][-2500:])
+    if r2["violated"] or r2["error"] or r2["timeout"]:
+        raise Inconclusive("model checking of Sasl.tla (two connections, one Mechanism) did not pass: " + r2["out"][-2500:])
     m = re.search(r"Finished computing initial states: (\d+) distinct", r["out"])
+    m2 = re.search(r"Finished computing initial states: (\d+) distinct", r2["out"])
     cov = {"states": r["distinct"], "transitions": r["generated"], "mc_depth": r["depth"],
-           "mc_configs": int(m.group(1)) if m else None, "mc_invariants": ["TypeOK"] + INVS, "mc_liveness": ["C18_DialTerminates"]}
+           "mc_configs": int(m.group(1)) if m else None, "mc_invariants": ["TypeOK"] + INVS, "mc_liveness": ["C18_DialTerminates"],
+           "mc_two_connections_one_mechanism": {"states": r2["distinct"], "transitions": r2["generated"], "depth": r2["depth"],
+                                                "configs": int(m2.group(1)) if m2 else None,
+                                                "liveness_checked": ctx.tier != "quick"}}
     guards = {}
     for (bug, inv), g in zip(GUARDS, gres):
         if g["violated"] != inv:
@@ -360,11 +493,18 @@ def run(ctx):
     ctx.vh_keep = ["sasl.go"]
     tier, seed = ctx.tier, ctx.seed
     cov = {"engine": ENGINE}
-    cov.update(model_check(ctx))
-    ctx.log("Sasl MC ok: %d distinct states, %d configurations, %d vacuity guards" % (cov["states"], cov["mc_configs"] or 0, len(GUARDS)))
     scs = scenarios(tier, seed)
     byid = {s["id"]: s for s in scs}
-    traces = run_driver(ctx, scs, "main")
+    ctx.vh()       # build first: the dials are timing-neutral (gates, no sleeps), but the build should not compete with TLC
+    with concurrent.futures.ThreadPoolExecutor(max_workers=1) as ex:
+        fmc = ex.submit(model_check, ctx)       # TLC on the model while the real dials run
+        try:
+            traces = run_driver(ctx, scs, "main")
+        finally:
+            mc = fmc.result()
+    cov.update(mc)
+    ctx.log("Sasl MC ok: %d distinct states, %d configurations; two connections with one Mechanism: %d states; %d vacuity guards" % (
+        cov["states"], cov["mc_configs"] or 0, cov["mc_two_connections_one_mechanism"]["states"], len(GUARDS)))
     ctx.log("driver: %d scenarios, %d connection journals, %d lines" % (len(scs), len(traces), sum(len(t) for t in traces)))
     pool = Pool(ctx, 1 if len(traces) < 3000 else 6)
     checked, mstates = monitor(ctx, pool, byid, traces)
@@ -381,10 +521,28 @@ def run(ctx):
     by_entry = {}
     for s in scs:
         by_entry[s["entry"]] = by_entry.get(s["entry"], 0) + 1
+    # delivery kinds and overlapping authentications: what the run really exercised
+    dt = deliv_triples(scs)
+    deliv_by_kind = {}
+    for s in scs:
+        deliv_by_kind[s["deliv"]] = deliv_by_kind.get(s["deliv"], 0) + 1
+    ovl = [s for s in scs if s.get("ovn")]
+    holds, releases, points = 0, {}, set()
+    for t in traces:
+        sc = byid.get(t[0]["scenario"], {})
+        for e in t:
+            if e.get("ev") == "hold" and e.get("until") != "peeradvanced":
+                holds += 1
+                points.add("%s/%s%s/%s/step%d/%s" % (sc.get("mech"), sc.get("entry"), ("-" + sc["ovvia"]) if sc.get("ovvia") else "",
+                                                     "raw" if advmax(sc.get("hsadv")) == 0 else "framed", e["round"], sc.get("ovmode")))
+            elif e.get("ev") == "release":
+                releases[e["why"]] = releases.get(e["why"], 0) + 1
+    if releases.get("watchdog"):
+        ctx.notes.append("%d held answer(s) were released by the watchdog, not by the awaited event" % releases["watchdog"])
 
     def sample(t):
-        return {"id": t[0]["id"], "cfg": {k: t[0][k] for k in ("mech", "hsadv", "authadv", "creds", "fkind", "fstep", "fcode", "attr", "entry", "class")},
-                "journal": ["%s %s" % (e["ev"], e.get("api") or e.get("what") or e.get("res") or e.get("closed", "")) for e in t[1:] if e["ev"] not in ("write", "open", "use")]}
+        return {"id": t[0]["id"], "cfg": {k: t[0].get(k) for k in ("mech", "hsadv", "authadv", "creds", "fkind", "fstep", "fcode", "attr", "entry", "class", "deliv", "ov")},
+                "journal": ["%s %s" % (e["ev"], e.get("api") or e.get("what") or e.get("res") or e.get("until") or e.get("why") or e.get("closed", "")) for e in t[1:] if e["ev"] not in ("write", "open", "use")]}
 
     cov.update({
         "traces_validated_against_impl": accepted, "traces_monitored": checked, "monitor_states": mstates,
@@ -394,6 +552,12 @@ def run(ctx):
         "credential_classes": sorted(set(s["class"] for s in scs)),
         "journals_by_entry_and_result": outcomes,
         "divergence_count": len(divs), "divergences": divs[:10], "invariants": INVS,
+        "delivery_kinds": deliv_by_kind,
+        "delivery_triples_meeting_all_kinds": "%d of %d (mechanism, handshake advertisement, path), right credentials, no injected fault" % (
+            sum(1 for v in dt.values() if len(v) == len(DELIVS)), len(MECHS) * len(HSADVS) * len(ENTRIES)),
+        "overlap_scenarios": len(ovl), "overlap_connections_max": max([s["ovn"] for s in ovl] or [0]),
+        "overlap_holds": holds, "overlap_releases": releases, "overlap_points": len(points),
+        "overlap_points_sample": sorted(points)[:6],
         "samples": [sample(traces[0]), sample(traces[len(traces) // 2]), sample(traces[-1])],
     })
     if divs:
@@ -414,7 +578,7 @@ def replay(ctx, path):
     checked, _ = monitor(ctx, pool, {sc["id"]: sc}, traces)
     accepted, divs = conformance(ctx, pool, traces)
     for t in traces:
-        print("journal %s: %s" % (t[0]["id"], " | ".join("%s %s" % (e["ev"], e.get("api") or e.get("what") or e.get("res") or e.get("closed", ""))
+        print("journal %s: %s" % (t[0]["id"], " | ".join("%s %s" % (e["ev"], e.get("api") or e.get("what") or e.get("res") or e.get("until") or e.get("why") or e.get("closed", ""))
                                                           for e in t[1:] if e["ev"] not in ("write", "open", "use"))), flush=True)
     if divs:
         print("DIVERGENCE property=%s traces=%d first=%s" % (ctx.prop, len(divs), json.dumps(divs[0])[:400]), flush=True)
